@@ -20,6 +20,7 @@ import (
 	"runtime/debug"
 	"strconv"
 	"strings"
+	"sync"
 	"time"
 	"unicode/utf8"
 
@@ -686,6 +687,7 @@ func cmdValues(args []string) {
 	seed := fs.Uint64("seed", 1, "")
 	n := fs.Int("n", 1000, "")
 	ncoq := fs.Int("coq", 300, "values also printed in full for the Coq write_value/read_value models")
+	ngraphs := fs.Int("graphs", 30, "random cyclic/shared value graphs in addition to the named shapes")
 	fs.Parse(args)
 	r := hx.NewRand(*seed)
 	dist := map[string]int{}
@@ -710,7 +712,10 @@ func cmdValues(args []string) {
 			} else if !deepSame(v, v2) {
 				t2, _ := reprOf(v2)
 				what = "Eval(repr(v)) is a different value or type: " + t2
-			} else if eq, err := starlark.Equal(v, v2); err != nil || !eq {
+			} else if eq, err := starlark.Equal(v, v2); err == nil && !eq {
+				// (an error here is Equal's own recursion limit on values deeper
+				// than CompareLimit, reachable through shared substructure;
+				// deepSame above has already compared everything exactly)
 				what = "Eval(repr(v)) != v"
 			}
 		}
@@ -753,15 +758,390 @@ func cmdValues(args []string) {
 		}
 		check(v, i < *ncoq)
 	}
-	// cyclic values: child process, str and repr must terminate
+	// cyclic / shared value graphs: every graph is printed with str and repr at
+	// every node, unfrozen, after Freeze(), inside the module that builds it, as a
+	// global of the finished (frozen) module and from a module that loads it; one
+	// child process per graph (a runaway recursion kills the process)
 	cyc := 0
-	for _, what := range []string{"list-self", "dict-self", "list-dict-list", "list-tuple-list", "dict-key-tuple", "deep-shared", "list-struct-list"} {
-		out, status := runChild(10*time.Second, "cycle", what)
-		dist["cyclic:"+what]++
+	specs := graphSpecs(r, *ngraphs)
+	recs := make([]M, len(specs))
+	sem := make(chan struct{}, 8)
+	var wg sync.WaitGroup
+	for gi, g := range specs {
+		wg.Add(1)
+		go func(gi int, g gspec) {
+			defer wg.Done()
+			sem <- struct{}{}
+			recs[gi] = runGraph(g)
+			<-sem
+		}(gi, g)
+	}
+	wg.Wait()
+	for gi, rec := range recs {
+		rec["index"] = gi
+		dist["graph:"+rec["cyc"].(string)]++
 		cyc++
-		hx.Emit(M{"kind": "cycle", "what": what, "status": status, "out": out})
+		hx.Emit(rec)
+	}
+	{
+		out, status := runChild(10*time.Second, "cycle", "list-struct-list")
+		dist["cyclic:list-struct-list"]++
+		hx.Emit(M{"kind": "cycle", "what": "list-struct-list", "status": status, "out": out})
 	}
 	hx.Emit(M{"kind": "summary", "dist": dist, "value_fails": fails, "cyclic_cases": cyc})
+}
+
+// ---------------------------------------------------------------- value graphs
+
+// A gnode is a list ("L"), dict ("D") or tuple ("T"); children >= 0 are node
+// indices, children < 0 are the int leaf -c.  Tuples may refer to lists, dicts
+// and EARLIER tuples only (they are immutable: built before lists/dicts are filled).
+type gnode struct {
+	K string `json:"k"`
+	C []int  `json:"c"`
+}
+type gspec struct {
+	Name  string  `json:"name"`
+	Nodes []gnode `json:"nodes"`
+}
+
+func namedGraphs() []gspec {
+	L := func(c ...int) gnode { return gnode{"L", c} }
+	D := func(c ...int) gnode { return gnode{"D", c} }
+	T := func(c ...int) gnode { return gnode{"T", c} }
+	return []gspec{
+		{"list-self", []gnode{L(-1, 0, -3)}},
+		{"list-self-twice", []gnode{L(0, 0)}},
+		{"dict-self", []gnode{D(0, -1)}},
+		{"list-list", []gnode{L(-1, 1), L(0, -2)}},
+		{"list-list-list", []gnode{L(1), L(2), L(0, -7)}},
+		{"list-dict-list", []gnode{L(1, 1), D(0)}},
+		{"dict-list-dict", []gnode{D(1, -5), L(0)}},
+		{"dict-dict", []gnode{D(1), D(0, 1)}},
+		{"list-tuple-list", []gnode{L(2), T(0), T(0, 1)}},
+		{"tuple-list-tuple", []gnode{T(1, -4), L(0)}},
+		{"dict-tuple-dict", []gnode{D(1), T(0, -2)}},
+		{"list-tuple-dict-list", []gnode{L(1), T(2), D(0, 1)}},
+		{"two-cycles", []gnode{L(0, 1), L(1, 0)}},
+		{"shared-acyclic", []gnode{L(1, 1, 2), L(-1), T(1, 1)}},
+		{"diamond", []gnode{L(1, 2), L(3), D(3), L(-9)}},
+		{"deep-shared", []gnode{L(1, 1), L(2, 2), L(3, 3), L(4, 4), L(5, 5), L(6, 6), L(-1)}},
+		{"cycle-below-shared", []gnode{L(1, 1), L(2), L(1, -1)}},
+		{"empty-things", []gnode{L(1, 2, 3), L(), D(), T()}},
+	}
+}
+
+func graphSpecs(r *hx.Rand, nrandom int) []gspec {
+	gs := namedGraphs()
+	for i := 0; i < nrandom; i++ {
+		n := 1 + r.Intn(5)
+		g := gspec{Name: fmt.Sprintf("random-%d", i)}
+		for j := 0; j < n; j++ {
+			k := hx.Pick(r, []string{"L", "L", "L", "D", "T"})
+			var c []int
+			nc := r.Intn(4)
+			for x := 0; x < nc; x++ {
+				if r.Intn(4) == 0 {
+					c = append(c, -(1 + r.Intn(9)))
+					continue
+				}
+				t := r.Intn(n)
+				c = append(c, t)
+			}
+			g.Nodes = append(g.Nodes, gnode{k, c})
+		}
+		// tuples may only see lists, dicts and earlier tuples
+		for j := range g.Nodes {
+			if g.Nodes[j].K != "T" {
+				continue
+			}
+			var c []int
+			for _, t := range g.Nodes[j].C {
+				if t < 0 || g.Nodes[t].K != "T" || t < j {
+					c = append(c, t)
+				}
+			}
+			g.Nodes[j].C = c
+		}
+		gs = append(gs, g)
+	}
+	return gs
+}
+
+// cycleKind names the class of the graph: which node kinds lie on a cycle.
+func cycleKind(g gspec) string {
+	n := len(g.Nodes)
+	reach := make([][]bool, n)
+	for i := range reach {
+		reach[i] = make([]bool, n)
+		for _, c := range g.Nodes[i].C {
+			if c >= 0 {
+				reach[i][c] = true
+			}
+		}
+	}
+	for k := 0; k < n; k++ {
+		for i := 0; i < n; i++ {
+			for j := 0; j < n; j++ {
+				if reach[i][k] && reach[k][j] {
+					reach[i][j] = true
+				}
+			}
+		}
+	}
+	kinds := map[string]bool{}
+	for i := 0; i < n; i++ {
+		if reach[i][i] {
+			kinds[g.Nodes[i].K] = true
+		}
+	}
+	switch {
+	case len(kinds) == 0:
+		return "acyclic"
+	case kinds["D"] && kinds["L"]:
+		if kinds["T"] {
+			return "cycle-lists-dicts-tuples"
+		}
+		return "cycle-lists-dicts"
+	case kinds["D"]:
+		if kinds["T"] {
+			return "cycle-dicts-tuples"
+		}
+		return "cycle-dicts"
+	case kinds["T"]:
+		return "cycle-lists-tuples"
+	}
+	return "cycle-lists"
+}
+
+func buildGraph(g gspec) []starlark.Value {
+	vals := make([]starlark.Value, len(g.Nodes))
+	for i, nd := range g.Nodes {
+		switch nd.K {
+		case "L":
+			vals[i] = starlark.NewList(nil)
+		case "D":
+			vals[i] = starlark.NewDict(0)
+		}
+	}
+	child := func(c int) starlark.Value {
+		if c < 0 {
+			return starlark.MakeInt(-c)
+		}
+		return vals[c]
+	}
+	for i, nd := range g.Nodes {
+		if nd.K == "T" {
+			t := make(starlark.Tuple, len(nd.C))
+			for j, c := range nd.C {
+				t[j] = child(c)
+			}
+			vals[i] = t
+		}
+	}
+	for i, nd := range g.Nodes {
+		switch nd.K {
+		case "L":
+			for _, c := range nd.C {
+				vals[i].(*starlark.List).Append(child(c))
+			}
+		case "D":
+			for j, c := range nd.C {
+				vals[i].(*starlark.Dict).SetKey(starlark.String(fmt.Sprintf("k%d", j)), child(c))
+			}
+		}
+	}
+	return vals
+}
+
+// graphProgram is Starlark source that builds the same graph as globals n0, n1, ...
+// and prints every node inside the module (out = [[repr, str], ...]).
+func graphProgram(g gspec) string {
+	var sb strings.Builder
+	ref := func(c int) string {
+		if c < 0 {
+			return strconv.Itoa(-c)
+		}
+		return fmt.Sprintf("n%d", c)
+	}
+	for i, nd := range g.Nodes {
+		switch nd.K {
+		case "L":
+			fmt.Fprintf(&sb, "n%d = []\n", i)
+		case "D":
+			fmt.Fprintf(&sb, "n%d = {}\n", i)
+		}
+	}
+	for i, nd := range g.Nodes {
+		if nd.K == "T" {
+			fmt.Fprintf(&sb, "n%d = (", i)
+			for _, c := range nd.C {
+				sb.WriteString(ref(c) + ",")
+			}
+			sb.WriteString(")\n")
+		}
+	}
+	for i, nd := range g.Nodes {
+		for j, c := range nd.C {
+			switch nd.K {
+			case "L":
+				fmt.Fprintf(&sb, "n%d.append(%s)\n", i, ref(c))
+			case "D":
+				fmt.Fprintf(&sb, "n%d[\"k%d\"] = %s\n", i, j, ref(c))
+			}
+		}
+	}
+	sb.WriteString("out = [")
+	for i := range g.Nodes {
+		fmt.Fprintf(&sb, "[repr(n%d), str(n%d)],", i, i)
+	}
+	sb.WriteString("]\n")
+	return sb.String()
+}
+
+// childGraph prints, for every stage and node, "out <stage> <node> <hex repr> <hex str>";
+// "stage <name>" is printed (and flushed) before each stage so that the parent
+// knows where a crash happened.
+func childGraph(js string) {
+	var g gspec
+	if err := json.Unmarshal([]byte(js), &g); err != nil {
+		os.Exit(2)
+	}
+	stage := func(name string) { fmt.Printf("stage %s\n", name); os.Stdout.Sync() }
+	emit := func(st string, i int, r, s string) { fmt.Printf("out %s %d %s %s\n", st, i, hx_(r), hx_(s)) }
+	printAll := func(st string, vals []starlark.Value) {
+		stage(st)
+		for i, v := range vals {
+			r, err1 := reprOf(v)
+			s, err2 := strOf(v)
+			if err1 != nil || err2 != nil {
+				fmt.Printf("error %s %d\n", st, i)
+				continue
+			}
+			if r != v.String() {
+				fmt.Printf("error %s %d repr-vs-String\n", st, i)
+			}
+			emit(st, i, r, s)
+		}
+	}
+	// Go API: unfrozen, then frozen from every node in turn (Freeze is recursive;
+	// entering the cycle at different nodes)
+	vals := buildGraph(g)
+	printAll("api-unfrozen", vals)
+	for i := range vals {
+		fresh := buildGraph(g)
+		fresh[i].Freeze()
+		stage(fmt.Sprintf("api-frozen-from-%d", i))
+		for j, v := range fresh {
+			r, err1 := reprOf(v)
+			s, err2 := strOf(v)
+			if err1 != nil || err2 != nil {
+				fmt.Printf("error api-frozen %d\n", j)
+				continue
+			}
+			emit(fmt.Sprintf("api-frozen-from-%d", i), j, r, s)
+		}
+	}
+	// through the interpreter
+	src := graphProgram(g)
+	stage("in-module")
+	th := &starlark.Thread{Name: "g"}
+	globals, err := starlark.ExecFile(th, "g.star", src, nil)
+	if err != nil {
+		fmt.Printf("error in-module exec %s\n", hx_(err.Error()))
+		return
+	}
+	if out, ok := globals["out"].(*starlark.List); ok {
+		for i := 0; i < out.Len(); i++ {
+			p := out.Index(i).(*starlark.List)
+			emit("in-module", i, string(p.Index(0).(starlark.String)), string(p.Index(1).(starlark.String)))
+		}
+	}
+	globals.Freeze()
+	gv := make([]starlark.Value, len(g.Nodes))
+	for i := range g.Nodes {
+		gv[i] = globals[fmt.Sprintf("n%d", i)]
+	}
+	printAll("module-global", gv)
+	stage("loaded")
+	var cl strings.Builder
+	cl.WriteString("load(\"g.star\"")
+	for i := range g.Nodes {
+		fmt.Fprintf(&cl, ", \"n%d\"", i)
+	}
+	cl.WriteString(")\nout2 = [")
+	for i := range g.Nodes {
+		fmt.Fprintf(&cl, "[repr(n%d), str(n%d), \"%%r\" %% (n%d,), \"%%s\" %% (n%d,)],", i, i, i, i)
+	}
+	cl.WriteString("]\n")
+	th2 := &starlark.Thread{Name: "client", Load: func(*starlark.Thread, string) (starlark.StringDict, error) { return globals, nil }}
+	g2, err := starlark.ExecFile(th2, "client.star", cl.String(), nil)
+	if err != nil {
+		fmt.Printf("error loaded exec %s\n", hx_(err.Error()))
+		return
+	}
+	out2 := g2["out2"].(*starlark.List)
+	for i := 0; i < out2.Len(); i++ {
+		p := out2.Index(i).(*starlark.List)
+		emit("loaded", i, string(p.Index(0).(starlark.String)), string(p.Index(1).(starlark.String)))
+		emit("loaded-format", i, string(p.Index(2).(starlark.String)), string(p.Index(3).(starlark.String)))
+	}
+	stage("done")
+}
+
+func runGraph(g gspec) M {
+	js, _ := json.Marshal(g)
+	cmd := exec.Command(os.Args[0], "child", "graph", string(js))
+	var out, errb bytes.Buffer
+	cmd.Stdout = &out
+	cmd.Stderr = &errb
+	status := "ok"
+	if err := cmd.Start(); err != nil {
+		status = "start-failed"
+	} else {
+		done := make(chan error, 1)
+		go func() { done <- cmd.Wait() }()
+		select {
+		case err := <-done:
+			if err != nil {
+				e := errb.String()
+				switch {
+				case strings.Contains(e, "stack overflow"):
+					status = "stack-overflow"
+				case strings.Contains(e, "panic"):
+					status = "panic"
+				default:
+					status = "crash"
+				}
+			}
+		case <-time.After(20 * time.Second):
+			cmd.Process.Kill()
+			status = "timeout"
+		}
+	}
+	last := ""
+	outs := []M{}
+	var errs []string
+	for _, line := range strings.Split(out.String(), "\n") {
+		f := strings.Fields(line)
+		switch {
+		case len(f) == 2 && f[0] == "stage":
+			last = f[1]
+		case len(f) >= 4 && f[0] == "out":
+			node, _ := strconv.Atoi(f[2])
+			sv := ""
+			if len(f) > 4 {
+				sv = f[4]
+			}
+			outs = append(outs, M{"stage": f[1], "node": node, "repr": f[3], "str": sv})
+		case len(f) >= 1 && f[0] == "error":
+			errs = append(errs, line)
+		}
+	}
+	if status == "ok" && last != "done" {
+		status = "incomplete"
+	}
+	return M{"kind": "graph", "spec": g, "cyc": cycleKind(g), "status": status, "last_stage": last, "outs": outs, "errors": errs}
 }
 
 func runChild(timeout time.Duration, args ...string) (string, string) {
@@ -795,46 +1175,15 @@ func runChild(timeout time.Duration, args ...string) (string, string) {
 
 func cmdChild(args []string) {
 	debug.SetMaxStack(64 << 20) // a runaway recursion dies quickly with "stack overflow"
+	if len(args) == 2 && args[0] == "graph" {
+		childGraph(args[1])
+		return
+	}
 	if len(args) < 2 || args[0] != "cycle" {
 		os.Exit(2)
 	}
-	one := starlark.MakeInt(1)
 	var v starlark.Value
 	switch args[1] {
-	case "list-self":
-		l := starlark.NewList([]starlark.Value{one})
-		l.Append(l)
-		l.Append(starlark.String("x"))
-		v = l
-	case "dict-self":
-		d := starlark.NewDict(1)
-		d.SetKey(starlark.String("k"), d)
-		d.SetKey(one, starlark.None)
-		v = d
-	case "list-dict-list":
-		l := starlark.NewList(nil)
-		d := starlark.NewDict(1)
-		d.SetKey(starlark.String("l"), l)
-		l.Append(d)
-		l.Append(d)
-		v = l
-	case "list-tuple-list":
-		l := starlark.NewList(nil)
-		l.Append(starlark.Tuple{l, starlark.Tuple{l}})
-		v = starlark.Tuple{l}
-	case "dict-key-tuple":
-		l := starlark.NewList(nil)
-		d := starlark.NewDict(1)
-		d.SetKey(starlark.Tuple{one, starlark.String("a")}, l)
-		l.Append(d)
-		v = d
-	case "deep-shared": // shared but acyclic: must print in full, no "..."
-		l := starlark.NewList([]starlark.Value{one})
-		x := starlark.Value(l)
-		for i := 0; i < 6; i++ {
-			x = starlark.NewList([]starlark.Value{x, x})
-		}
-		v = x
 	case "list-struct-list":
 		l := starlark.NewList(nil)
 		s := starlarkstruct.FromStringDict(starlarkstruct.Default, starlark.StringDict{"x": l})
@@ -937,6 +1286,11 @@ func cmdReplay() {
 			st, _ := strOf(v)
 			hx.Emit(M{"kind": "value", "v": describe(v), "repr": hx_(text), "str": hx_(st)})
 		}
+	case "graph":
+		js, _ := json.Marshal(m["spec"])
+		var g gspec
+		json.Unmarshal(js, &g)
+		hx.Emit(runGraph(g))
 	case "cycle":
 		what := m["what"].(string)
 		out, status := runChild(10*time.Second, "cycle", what)
